@@ -162,6 +162,28 @@ func (ec *evalCtx) specCall(call *ast.CallExpr) Value {
 			return Ite(Le(a, b), a, b)
 		}
 		return Ite(Ge(a, b), a, b)
+	case "flat":
+		// flat(ss, n): concatenation of the first n elements of a slice of strings
+		need(2)
+		sl, ok := arg(0).(*SliceV)
+		if !ok {
+			panic(unsupported("flat: not a slice"))
+		}
+		n := scalar(arg(1))
+		if n.IsInt() && (sl.Len.IsInt() || sl.Name == "") {
+			var parts []*Term
+			for i := int64(0); i < n.Int.Int64(); i++ {
+				parts = append(parts, scalar(sl.At(Int(i))))
+			}
+			return Concat(parts...)
+		}
+		if sl.Name == "" {
+			panic(unsupported("flat of a derived slice with symbolic count"))
+		}
+		f := func(k *Term) *Term { return App("flat:"+sl.Name, SStr, k) }
+		ec.st.Assume(Eq(f(Int(0)), Str("")))
+		ec.st.Assume(Implies(Gt(n, Int(0)), Eq(f(n), Concat(f(Sub(n, Int(1))), scalar(sl.At(Sub(n, Int(1))))))))
+		return f(n)
 	case "lengths":
 		need(1)
 		s := arg(0).(*SliceV)
@@ -181,13 +203,50 @@ func (ec *evalCtx) specCall(call *ast.CallExpr) Value {
 	case "has":
 		// has(m, k): key present in map
 		need(2)
-		return Select(arg(0).(*MapV).Dom, scalar(arg(1)))
+		return Select(arg(0).(*MapV).Dom, keyTerm(arg(1)))
+	case "withKey":
+		// withKey(m, k): the map view m with key k added (values unchanged)
+		need(2)
+		m := arg(0).(*MapV)
+		n := *m
+		n.Dom = Store(m.Dom, keyTerm(arg(1)), True)
+		return &n
 	case "in":
 		need(1)
 		return ec.inLval(arg(0)).get()
+	case "cv":
+		// cv(): the context value shared by every context of the current render
+		need(0)
+		return ec.e().renderCV(ec.st)
+	case "slot":
+		// slot(): the component in the children slot of the render's context value, nil if empty
+		need(0)
+		cvp := ec.e().renderCV(ec.st)
+		sv := ec.st.heap[cvp.Obj].(*StructV)
+		ch, ok := sv.F["children"].(*PtrV)
+		if !ok {
+			panic(unsupported("slot(): contextValue.children is not a pointer"))
+		}
+		nilIface := &IfaceV{Tag: Int(0), Id: Int(0), Payloads: map[string]Value{}}
+		if ch.Obj < 0 {
+			return nilIface
+		}
+		content, ok := ec.st.heap[ch.Obj].(*IfaceV)
+		if !ok {
+			if bx, isBox := ec.st.heap[ch.Obj].(*boxedV); isBox {
+				content, ok = ec.st.heap[bx.Obj].(*IfaceV)
+			}
+			if !ok {
+				panic(unsupported("slot(): children does not point to a Component (%T)", ec.st.heap[ch.Obj]))
+			}
+		}
+		return mergeValue(ch.Nil, nilIface, content)
 	case "doc":
 		need(1)
 		return ec.docValue(arg(0))
+	case "sink":
+		need(1)
+		return ec.sinkValue(arg(0))
 	case "pending", "sticky", "target":
 		need(1)
 		p, ok := arg(0).(*PtrV)
